@@ -8,7 +8,7 @@ import (
 	"time"
 
 	"github.com/rulego/streamsql"
-	"github.com/rulego/streamsql/utils/simrt"
+	"verif.local/simrt"
 )
 
 // C05 — non-aggregate queries are a stateless, ordered, row-wise filter and projection
@@ -257,6 +257,19 @@ func (c05) Gen(rng *simrt.Rand, seed uint64, tier string) *Case {
 		}
 	}
 	c.Clients = [][]Op{opsA, opsB}
+	if rng.Bool(0.6) {
+		// a third client calls EmitSync on instance A while its processor goroutine handles the Emit
+		// path: both evaluate the same compiled WHERE / field programs (ids get an "s" suffix)
+		var opsC []Op
+		for _, op := range opsA {
+			if op.K == "emit" && rng.Bool(0.6) {
+				row := Row(copyRow(op.Row))
+				row["id"] = op.Tag + "s"
+				opsC = append(opsC, Op{K: "emitsync", I: 0, Row: row, Tag: op.Tag + "s"})
+			}
+		}
+		c.Clients = append(c.Clients, opsC)
+	}
 	c.Policy = genPolicy(rng, []time.Duration{time.Microsecond, time.Millisecond, 100 * time.Millisecond, time.Second}, false)
 	c.Settle = int64(2 * time.Second)
 	c.MaxSteps = 300000
@@ -343,7 +356,17 @@ func (c05) Run(e *Env) {
 	// B: EmitSync return values and its sync sink
 	bOut := map[string]map[string]any{}
 	bHas := map[string]bool{}
+	type syncOnA struct {
+		out map[string]any
+		has bool
+		err string
+	}
+	aSyncCalls := map[string]syncOnA{}
 	for _, rec := range e.Ops {
+		if rec.Op.K == "emitsync" && rec.Op.I == 0 {
+			aSyncCalls[strings.TrimSuffix(rec.Op.Tag, "s")] = syncOnA{rec.Out, rec.Out != nil, rec.Err}
+			continue
+		}
 		if rec.Op.K == "emitsync" {
 			if rec.Err != "" {
 				e.Violate("C05/emitsync-error", "", "EmitSync(%s) returned error %s", rec.Op.Tag, rec.Err)
@@ -364,6 +387,9 @@ func (c05) Run(e *Env) {
 	aAsync := map[string][]map[string]any{}
 	for _, d := range A.Deliveries {
 		for _, r := range d.Rows {
+			if strings.HasSuffix(rowID(r), "s") {
+				continue // produced by the concurrent EmitSync client on A, judged separately
+			}
 			switch d.Sink {
 			case 0:
 				aSyncSeq = append(aSyncSeq, rowID(r))
@@ -380,6 +406,9 @@ func (c05) Run(e *Env) {
 	aChan := map[string]map[string]any{}
 	for _, d := range A.ChanRecv {
 		for _, r := range d.Rows {
+			if strings.HasSuffix(rowID(r), "s") {
+				continue
+			}
 			chanSeq = append(chanSeq, rowID(r))
 			aChan[rowID(r)] = r
 		}
@@ -424,6 +453,23 @@ func (c05) Run(e *Env) {
 				e.Violate("C05/history-dependent", "value", "row %s: fresh instance result %s, long-running instance %s", id, canon(f), canon(b))
 			}
 			e.Probe("fresh_instance_compared")
+		}
+		if sc, ok := aSyncCalls[id]; ok {
+			e.Probe("emitsync_concurrent_with_emit_on_one_instance")
+			want := copyRow(b)
+			if want != nil {
+				want["id"] = id + "s"
+				if _, has := b["id"]; !has {
+					delete(want, "id")
+				}
+			}
+			if sc.err != "" {
+				e.Violate("C05/emitsync-error", "", "EmitSync(%ss) on the instance that also serves Emit returned error %s", id, sc.err)
+			} else if sc.has != bok {
+				e.Violate("C05/sync-async-disagree", "concurrent-presence", "row %s: EmitSync issued while the same instance processed Emit rows returned a result=%v, a quiet instance returns a result=%v", id, sc.has, bok)
+			} else if bok && !deepEqual(sc.out, want) {
+				e.Violate("C05/sync-async-disagree", "concurrent-value", "row %s: EmitSync issued while the same instance processed Emit rows returned %s, a quiet instance returns %s", id, canon(sc.out), canon(want))
+			}
 		}
 		if len(wterms) > 0 {
 			judge := true
